@@ -59,14 +59,49 @@ Proof.
   constructor; [|apply IH; exact Hr].
   intros Hin. apply keys_adel in Hin. tauto.
 Qed.
+Lemma In_ains e key p m : In e (ains key p m) <-> e = (key, p) \/ In e m.
+Proof.
+  induction m as [|[k q] r IH]; cbn; [intuition congruence|].
+  destruct (key <? k); cbn; [intuition congruence|]. rewrite IH. tauto.
+Qed.
+Lemma keys_ains x key p m : In x (keys (ains key p m)) <-> x = key \/ In x (keys m).
+Proof.
+  induction m as [|[k q] r IH]; cbn; [intuition congruence|].
+  destruct (key <? k); cbn; [intuition congruence|]. rewrite IH. tauto.
+Qed.
+Lemma ains_nodup key p m : ~ In key (keys m) -> NoDup (keys m) -> NoDup (keys (ains key p m)).
+Proof.
+  induction m as [|[k q] r IH]; cbn; intros Hn Hnd.
+  - constructor; [tauto|constructor].
+  - inversion Hnd as [|? ? Hk Hr]; subst. destruct (key <? k); cbn.
+    + constructor; [cbn; tauto|exact Hnd].
+    + constructor; [|apply IH; tauto]. intros Hin. apply keys_ains in Hin. destruct Hin as [->|Hin]; tauto.
+Qed.
+Lemma afind_ains key p m key' : ~ In key (keys m) ->
+  afind key' (ains key p m) = if key' =? key then Some p else afind key' m.
+Proof.
+  induction m as [|[k q] r IH]; cbn; intros Hn.
+  - rewrite (Z.eqb_sym key key'). reflexivity.
+  - destruct (key <? k); cbn.
+    + rewrite (Z.eqb_sym key key'). reflexivity.
+    + rewrite IH by tauto. destruct (Z.eqb_spec k key') as [E|Hk]; [|reflexivity].
+      destruct (Z.eqb_spec key' key) as [E2|]; [exfalso; apply Hn; left; congruence|reflexivity].
+Qed.
+Lemma ains_length key p m : length (ains key p m) = S (length m).
+Proof. induction m as [|[k q] r IH]; cbn; [reflexivity|]. destruct (key <? k); cbn; [reflexivity|]. rewrite IH. reflexivity. Qed.
+Lemma adel_length key m : (length (adel key m) <= length m)%nat.
+Proof. unfold adel. induction m as [|e r IH]; cbn; [lia|]. destruct (negb (fst e =? key)); cbn; lia. Qed.
+Lemma aput_length key p m : (length (aput key p m) <= S (length m))%nat.
+Proof. unfold aput. rewrite ains_length. pose proof (adel_length key m). lia. Qed.
+
 Lemma aput_nodup key p m : NoDup (keys m) -> NoDup (keys (aput key p m)).
 Proof.
-  intros H. unfold aput. cbn. constructor; [|apply adel_nodup; exact H].
+  intros H. unfold aput. apply ains_nodup; [|apply adel_nodup; exact H].
   intros Hin. apply keys_adel in Hin. tauto.
 Qed.
 Lemma In_aput k p key q m : In (k, p) (aput key q m) <-> (k = key /\ p = q) \/ (k <> key /\ In (k, p) m).
 Proof.
-  unfold aput. cbn. rewrite In_adel. split.
+  unfold aput. rewrite In_ains, In_adel. split.
   - intros [E|[H1 H2]]; [inversion E; auto|auto].
   - intros [[-> ->]|[H1 H2]]; auto.
 Qed.
@@ -92,7 +127,7 @@ Proof.
 Qed.
 Lemma ahas_aput key q key' m : ahas key' (aput key q m) = (key' =? key) || ahas key' m.
 Proof.
-  unfold ahas, aput. cbn [afind]. rewrite (Z.eqb_sym key key').
+  unfold ahas, aput. rewrite afind_ains by (intros Hin; apply keys_adel in Hin; tauto).
   destruct (Z.eqb_spec key' key) as [->|Hne]; cbn; [reflexivity|].
   rewrite afind_adel_other by exact Hne. reflexivity.
 Qed.
@@ -469,7 +504,7 @@ Proof.
       split; [eapply CInv_set; eauto|reflexivity].
     + inversion Ha; subst. auto.
   - destruct (CInv_fulfill c v HI) as [u0 [h0 [u1 [h1 [Hf0 [Hf1 [HI' _]]]]]]].
-    rewrite Hf0, Hf1 in Ha. inversion Ha; subst. auto.
+    unfold finish in Ha. rewrite Hf0, Hf1 in Ha. inversion Ha; subst. auto.
   - inversion Ha; subst. auto.
   - inversion Ha; subst. auto.
   - inversion Ha; subst. split; [apply CInv_finished; exact HI|reflexivity].
@@ -493,7 +528,8 @@ Proof.
   - destruct (afind key (pend c k)) as [q|]; [|inversion Ha; subst; apply hle_refl].
     destruct (set_value q v (heap c)) as [h1|] eqn:Hs; [|inversion Ha; subst; apply hle_refl].
     inversion Ha; subst. cbn [heap]. eapply hle_trans; [eapply hle_set_value; eauto|apply hle_drop_opt].
-  - destruct (fulfill (pend c false) v (used c false) (heap c)) as [[u0 h0]|] eqn:H0; [|inversion Ha; subst; apply hle_refl].
+  - unfold finish in Ha.
+    destruct (fulfill (pend c false) v (used c false) (heap c)) as [[u0 h0]|] eqn:H0; [|inversion Ha; subst; apply hle_refl].
     destruct (fulfill (pend c true) v (used c true) h0) as [[u1 h1]|] eqn:H1; [|inversion Ha; subst; apply hle_refl].
     inversion Ha; subst. cbn [heap]. eapply hle_trans; eapply fulfill_hle; eauto.
   - inversion Ha; subst. apply hle_refl.
@@ -528,7 +564,7 @@ Lemma apply_fulfill c v : CInv c ->
        nth_error (heap c') q = Some (Cell k key (settle v st))).
 Proof.
   intros HI. destruct (CInv_fulfill c v HI) as [u0 [h0 [u1 [h1 [Hf0 [Hf1 [_ [Hl [Hc _]]]]]]]]].
-  cbn [apply]. rewrite Hf0, Hf1. eexists. split; [reflexivity|]. cbn [heap pend]. auto.
+  cbn [apply]. unfold finish. rewrite Hf0, Hf1. eexists. split; [reflexivity|]. cbn [heap pend]. auto.
 Qed.
 
 (* no value out of thin air: a promise is satisfied only by a setDelayedValue for its own key,
@@ -667,7 +703,7 @@ Proof.
       assert (ahas key (pend c' k) = false) as Hh by (unfold ahas; rewrite Hf; reflexivity).
       rewrite Hh. reflexivity.
   - destruct (CInv_fulfill c v HI) as [u0 [h0 [u1 [h1 [Hf0 [Hf1 [_ [_ [_ [Hh0 Hh1]]]]]]]]]].
-    rewrite Hf0, Hf1 in Ha. inversion Ha; subst. cbn [pend used fst snd]. split; [|reflexivity].
+    unfold finish in Ha. rewrite Hf0, Hf1 in Ha. inversion Ha; subst. cbn [pend used fst snd]. split; [|reflexivity].
     destruct k'; [rewrite Hh1|rewrite Hh0]; reflexivity.
   - inversion Ha; subst. auto.
   - inversion Ha; subst. auto.
@@ -707,6 +743,133 @@ Proof.
 Qed.
 
 (* ====================================================================== *)
+(* fulfillAllPromises one copy at a time                                   *)
+(* ====================================================================== *)
+Lemma is_unset_true h q : is_unset h q = true <-> exists k key, nth_error h q = Some (Cell k key Unset).
+Proof.
+  unfold is_unset. destruct (nth_error h q) as [[k key st]|]; [destruct st|]; split; intros H; try discriminate; eauto.
+  all: destruct H as [k0 [key0 H]]; discriminate.
+Qed.
+Lemma set_value_unset q v h h1 : set_value q v h = Some h1 -> is_unset h q = true.
+Proof. intros H. destruct (set_value_spec _ _ _ _ H) as [k [key [E _]]]. apply is_unset_true. eauto. Qed.
+
+(* the container after one more iteration of the loop over map k *)
+Definition iter (c : cont) (k : bool) (key : Z) (q : nat) (h1 : heap_t) : cont :=
+  Cont (pend c) (setf (used c) k (aput key q (used c k))) (drop_opt (afind key (used c k)) h1).
+
+Lemma finish_step v k key q r c cf : finish v k ((key, q) :: r) c = Some cf ->
+  exists h1, set_value q v (heap c) = Some h1 /\ finish v k r (iter c k key q h1) = Some cf.
+Proof.
+  unfold finish. destruct k; cbn [fulfill].
+  - destruct (set_value q v (heap c)) as [h1|] eqn:Hs; [|discriminate]. intros H. exists h1. split; [reflexivity|].
+    unfold iter. cbn [pend used heap]. rewrite setf_eq. rewrite (setf_ne _ true _ false) by discriminate. exact H.
+  - destruct (set_value q v (heap c)) as [h1|] eqn:Hs; [|discriminate]. intros H. exists h1. split; [reflexivity|].
+    unfold iter. cbn [pend used heap]. rewrite setf_eq. rewrite (setf_ne _ false _ true) by discriminate. exact H.
+Qed.
+Lemma finish_head_unset v k key q r c cf : finish v k ((key, q) :: r) c = Some cf -> is_unset (heap c) q = true.
+Proof. intros H. destruct (finish_step _ _ _ _ _ _ _ H) as [h1 [Hs _]]. eapply set_value_unset; eauto. Qed.
+
+(* where the iterator goes next, given that the sequential rest of the method succeeds with cf *)
+Lemma ful_goto_spec v d c0 c k r cf c' p' flt : finish v k r c = Some cf ->
+  ful_goto v d c0 c k r = (c', p', flt) ->
+  flt = false /\
+  ((exists k' key q r', p' = P_ful v k' key q r' d c0 /\ c' = c /\ finish v k' ((key, q) :: r') c = Some cf) \/
+   (p' = P_unlock (ORet 0) /\ c' = cf)).
+Proof.
+  intros Hf Hg. unfold ful_goto in Hg. destruct r as [|[key q] r'].
+  - destruct k.
+    + inversion Hg; subst. split; [reflexivity|]. right. split; [reflexivity|].
+      unfold finish in Hf. cbn in Hf. inversion Hf. reflexivity.
+    + destruct (pend c true) as [|[key q] r'] eqn:Hp.
+      * inversion Hg; subst. split; [reflexivity|]. right. split; [reflexivity|].
+        unfold finish in Hf. cbn in Hf. rewrite Hp in Hf. cbn in Hf. inversion Hf. reflexivity.
+      * assert (Hf' : finish v true ((key, q) :: r') c = Some cf).
+        { unfold finish in *. cbn [fulfill] in Hf. rewrite Hp in Hf. exact Hf. }
+        rewrite (finish_head_unset _ _ _ _ _ _ _ Hf') in Hg. inversion Hg; subst. split; [reflexivity|].
+        left. exists true, key, q, r'. auto.
+  - rewrite (finish_head_unset _ _ _ _ _ _ _ Hf) in Hg. inversion Hg; subst. split; [reflexivity|].
+    left. exists k, key, q, r'. auto.
+Qed.
+
+Lemma apply_fulfill_finish v c cf : apply (FulfillAll v) c = (cf, 0, false) -> finish v false (pend c false) c = Some cf.
+Proof. cbn [apply]. destruct (finish v false (pend c false) c); intros H; inversion H; reflexivity. Qed.
+
+Lemma enter_atomic_spec o c c1 rv fl c' p' flt : CInv c -> apply o c = (c1, rv, fl) ->
+  (c1, P_unlock (out_of rv fl), fl) = (c', p', flt) ->
+  flt = false /\ exists rv0, p' = P_unlock (ORet rv0) /\ apply o c = (c', rv0, false).
+Proof.
+  intros HI Ha E. destruct (apply_CInv _ _ _ _ _ HI Ha) as [_ ->]. inversion E; subst.
+  split; [reflexivity|]. exists rv. auto.
+Qed.
+
+(* the lock step of a method on a container satisfying the invariant *)
+Lemma enter_spec o c c' p' flt : CInv c -> enter o c = (c', p', flt) ->
+  flt = false /\
+  ((exists k key v q, o = SetValue false k key v /\ p' = P_call o /\ c' = c /\ afind key (pend c k) = Some q) \/
+   (exists rv, p' = P_unlock (ORet rv) /\ apply o c = (c', rv, false)) \/
+   (exists v k key q r cf, o = FulfillAll v /\ p' = P_ful v k key q r 0 c /\ c' = c /\
+      apply o c = (cf, 0, false) /\ finish v k ((key, q) :: r) c = Some cf)).
+Proof.
+  intros HI He.
+  destruct o; cbn [enter] in He;
+    try (destruct (apply _ c) as [[c1 rv] fl] eqn:Ha in He; destruct (enter_atomic_spec _ _ _ _ _ _ _ _ HI Ha He) as [-> H];
+         split; [reflexivity|right; left; exact H]).
+  - (* setDelayedValue *)
+    destruct mv.
+    + destruct (apply (SetValue true k key v) c) as [[c1 rv] fl] eqn:Ha in He.
+      destruct (enter_atomic_spec _ _ _ _ _ _ _ _ HI Ha He) as [-> H]. split; [reflexivity|right; left; exact H].
+    + destruct (afind key (pend c k)) as [q|] eqn:Hf.
+      * assert (is_unset (heap c) q = true) as Hu.
+        { apply is_unset_true. exists k, key. apply (C_pend _ HI). apply afind_In. exact Hf. }
+        rewrite Hu in He. inversion He; subst. split; [reflexivity|]. left. exists k, key, v, q. auto.
+      * inversion He; subst. split; [reflexivity|]. right; left. exists 0. split; [reflexivity|].
+        apply apply_set_noop. exact Hf.
+  - (* fulfillAllPromises *)
+    destruct (apply (FulfillAll v) c) as [[cf rv] fl] eqn:Ha.
+    destruct (apply_CInv _ _ _ _ _ HI Ha) as [_ ->].
+    assert (rv = 0) as -> by (cbn [apply] in Ha; destruct (finish v false (pend c false) c); inversion Ha; reflexivity).
+    pose proof (apply_fulfill_finish _ _ _ Ha) as Hfin.
+    destruct (ful_goto_spec _ _ _ _ _ _ _ _ _ _ Hfin He) as [-> [[k' [key [q [r' [-> [-> Hf']]]]]]|[-> ->]]].
+    + split; [reflexivity|]. right; right. exists v, k', key, q, r', cf. auto.
+    + split; [reflexivity|]. right; left. exists 0. auto.
+Qed.
+
+(* one iteration satisfies exactly the promise at the iterator *)
+Lemma iter_heap c k key q v h1 : CInv c \/ True -> set_value q v (heap c) = Some h1 ->
+  forall i k0 key0 w, nth_error (heap (iter c k key q h1)) i = Some (Cell k0 key0 (SetV w)) ->
+    nth_error (heap c) i = Some (Cell k0 key0 (SetV w)) \/ (i = q /\ w = v).
+Proof.
+  intros _ Hs i k0 key0 w Hi. unfold iter in Hi. cbn [heap] in Hi.
+  assert (Hh1 : nth_error h1 i = Some (Cell k0 key0 (SetV w))).
+  { destruct (afind key (used c k)) as [q0|]; cbn [drop_opt] in Hi; [|exact Hi].
+    destruct (drop_spec q0 h1) as [[k1 [key1 [E [E' [_ Ho]]]]]|[_ E]]; [|rewrite E in Hi; exact Hi].
+    destruct (Nat.eq_dec i q0) as [->|Hne]; [rewrite E' in Hi; discriminate|rewrite Ho in Hi by exact Hne; exact Hi]. }
+  destruct (set_value_spec _ _ _ _ Hs) as [k1 [key1 [E [E' [_ Ho]]]]].
+  destruct (Nat.eq_dec i q) as [->|Hne].
+  - rewrite E' in Hh1. inversion Hh1; subst. right; auto.
+  - rewrite Ho in Hh1 by exact Hne. left; exact Hh1.
+Qed.
+Lemma iter_hle c k key q v h1 : set_value q v (heap c) = Some h1 -> hle (heap c) (heap (iter c k key q h1)).
+Proof. intros Hs. unfold iter; cbn [heap]. eapply hle_trans; [eapply hle_set_value; eauto|apply hle_drop_opt]. Qed.
+Lemma ful_goto_heap v d c0 c k r c' p' flt : ful_goto v d c0 c k r = (c', p', flt) -> heap c' = heap c.
+Proof.
+  unfold ful_goto. destruct r as [|[key q] r'].
+  - destruct k; [intros H; inversion H; reflexivity|].
+    destruct (pend c true) as [|[key q] r']; [intros H; inversion H; reflexivity|].
+    destruct (is_unset (heap c) q); intros H; inversion H; reflexivity.
+  - destruct (is_unset (heap c) q); intros H; inversion H; reflexivity.
+Qed.
+Lemma enter_hle o c c' p' flt : enter o c = (c', p', flt) -> hle (heap c) (heap c').
+Proof.
+  intros He.
+  destruct o; cbn [enter] in He;
+    try solve [destruct (apply _ c) as [[c1 rv] fl] eqn:Ha; inversion He; subst; eapply apply_hle; exact Ha].
+  - destruct mv; [destruct (apply (SetValue true k key v) c) as [[c1 rv] fl] eqn:Ha; inversion He; subst; eapply apply_hle; exact Ha|].
+    destruct (afind key (pend c k)); [destruct (is_unset (heap c) n)|]; inversion He; subst; apply hle_refl.
+  - rewrite (ful_goto_heap _ _ _ _ _ _ _ _ _ He). apply hle_refl.
+Qed.
+
+(* ====================================================================== *)
 (* the concurrent system                                                   *)
 (* ====================================================================== *)
 Definition pcof (ls : list loc) (u : nat) : pc :=
@@ -722,7 +885,10 @@ Lemma pcof_at ls t l : nth_error ls t = Some l -> pcof ls t = at_ l.
 Proof. intros H. unfold pcof. rewrite H. reflexivity. Qed.
 Arguments pcof : simpl never.
 
-Definition is_unlock (p : pc) : bool := match p with P_unlock _ _ => true | _ => false end.
+(* the pcs at which a thread owns promiseLock *)
+Definition holds (p : pc) : bool :=
+  match p with P_call _ | P_ful _ _ _ _ _ _ _ | P_unlock _ => true | _ => false end.
+Definition is_ful (p : pc) : bool := match p with P_ful _ _ _ _ _ _ _ => true | _ => false end.
 Definition is_lock (p : pc) : bool := match p with P_lock _ => true | _ => false end.
 
 (* what a client-side observation (no library call) returns *)
@@ -737,444 +903,132 @@ Definition new_slots (o : op) (g : glob) (l : loc) : list (option nat) :=
   | GetFuture _ _ sl => upd (slots l) sl (Some (length (heap (ct g))))
   | _ => slots l
   end.
+Definition unlock_evs (out : outc) : list ev :=
+  E K_UNLOCK O_MTX 0 ::
+  match out with
+  | ORet rv => [E K_RET 0 rv]
+  | OFault => [E K_FAULT 0 1; E K_RET 0 RV_FAULT]
+  | OExn => [E K_CATCH 0 0]
+  end.
 
-(* the three kinds of step *)
-Lemma tstep_inv t c g l g' l' es : tstep t c g l = Some (g', l', es) ->
-  (exists o r, at_ l = Idle /\ prog l = o :: r /\ g' = g /\ locks o = true /\
-     l' = Loc r (P_lock o) (slots l) /\ es = [E K_INVOKE 0 (opcode o)]) \/
-  (exists o r, at_ l = Idle /\ prog l = o :: r /\ g' = g /\ locks o = false /\
-     l' = Loc r Idle (slots l) /\ es = [E K_INVOKE 0 (opcode o); E K_RET 0 (client_obs o g l)]) \/
-  (exists o c' rv flt, at_ l = P_lock o /\ mtx g = None /\ apply o (ct g) = (c', rv, flt) /\
-     g' = Glob c' (Some t) (faulted g || flt) (hist g ++ [(t, o, rv)]) /\
-     l' = Loc (prog l) (P_unlock rv flt) (new_slots o g l) /\ es = [E K_LOCK O_MTX 0]) \/
-  (exists rv flt, at_ l = P_unlock rv flt /\ g' = Glob (ct g) None (faulted g) (hist g) /\
-     l' = Loc (prog l) Idle (slots l) /\
-     es = E K_UNLOCK O_MTX 0 :: (if flt then [E K_FAULT 0 1] else []) ++ [E K_RET 0 rv]).
+(* the nine kinds of step *)
+Inductive stepk (t : nat) (g : glob) (l : loc) : glob -> loc -> list ev -> Prop :=
+| S_invoke o r : at_ l = Idle -> prog l = o :: r -> locks o = true ->
+    stepk t g l g (Loc r (P_lock o) (slots l)) [E K_INVOKE 0 (opcode o)]
+| S_observe o r : at_ l = Idle -> prog l = o :: r -> locks o = false ->
+    stepk t g l g (Loc r Idle (slots l)) [E K_INVOKE 0 (opcode o); E K_RET 0 (client_obs o g l)]
+| S_lock o c' p' flt : at_ l = P_lock o -> mtx g = None -> enter o (ct g) = (c', p', flt) ->
+    stepk t g l (Glob c' (Some t) (faulted g || flt) (plan g) (calls g) (torn g) (began g ++ [(t, o)])
+                      (log_out t o p' (hist g)))
+          (Loc (prog l) p' (new_slots o g l)) [E K_LOCK O_MTX 0]
+| S_call_throw o : at_ l = P_call o -> throws g = true ->
+    stepk t g l (Glob (ct g) (mtx g) (faulted g) (plan g) (calls g + 1) (torn g) (began g) (hist g ++ [(t, o, OExn)]))
+          (Loc (prog l) (P_unlock OExn) (slots l)) [E K_CALL 0 (val_of o); E K_THROW 0 (calls g)]
+| S_call_ok o c' rv flt : at_ l = P_call o -> throws g = false -> apply o (ct g) = (c', rv, flt) ->
+    stepk t g l (Glob c' (mtx g) (faulted g || flt) (plan g) (calls g + 1) (torn g) (began g)
+                      (log_out t o (P_unlock (out_of rv flt)) (hist g)))
+          (Loc (prog l) (P_unlock (out_of rv flt)) (slots l)) [E K_CALL 0 (val_of o)]
+| S_ful_throw v k key q r done c0 : at_ l = P_ful v k key q r done c0 -> throws g = true ->
+    stepk t g l (Glob (ct g) (mtx g) (faulted g) (plan g) (calls g + 1) (torn g || negb (Nat.eqb done 0)) (began g)
+                      (hist g ++ [(t, FulfillAll v, OExn)]))
+          (Loc (prog l) (P_unlock OExn) (slots l)) [E K_CALL 0 v; E K_THROW 0 (calls g)]
+| S_ful_bad v k key q r done c0 : at_ l = P_ful v k key q r done c0 -> throws g = false ->
+    set_value q v (heap (ct g)) = None ->
+    stepk t g l (Glob (ct g) (mtx g) true (plan g) (calls g + 1) (torn g) (began g) (hist g))
+          (Loc (prog l) (P_unlock OFault) (slots l)) [E K_CALL 0 v]
+| S_ful_ok v k key q r done c0 h1 c' p' flt : at_ l = P_ful v k key q r done c0 -> throws g = false ->
+    set_value q v (heap (ct g)) = Some h1 ->
+    ful_goto v (S done) c0 (iter (ct g) k key q h1) k r = (c', p', flt) ->
+    stepk t g l (Glob c' (mtx g) (faulted g || flt) (plan g) (calls g + 1) (torn g) (began g)
+                      (log_out t (FulfillAll v) p' (hist g)))
+          (Loc (prog l) p' (slots l)) [E K_CALL 0 v]
+| S_unlock out : at_ l = P_unlock out ->
+    stepk t g l (Glob (ct g) None (faulted g) (plan g) (calls g) (torn g) (began g) (hist g))
+          (Loc (prog l) Idle (slots l)) (unlock_evs out).
+
+Lemma tstep_stepk t c g l g' l' es : tstep t c g l = Some (g', l', es) -> stepk t g l g' l' es.
 Proof.
   intros Hs. destruct l as [pr p sl]. unfold tstep in Hs. cbn [at_ prog slots] in *. destruct p.
   - destruct pr as [|o r]; [discriminate|].
     destruct o; inversion Hs; subst;
-      try (left; eexists _, _; repeat split; reflexivity);
-      right; left; eexists _, _; repeat split; reflexivity.
+      try (eapply S_invoke; reflexivity);
+      eapply S_observe; reflexivity.
   - destruct (mtx g) eqn:Hm; [discriminate|].
-    destruct (apply o (ct g)) as [[c' rv] flt] eqn:Ha. inversion Hs; subst.
-    right; right; left. exists o, c', rv, flt. repeat split; auto.
-  - inversion Hs; subst. right; right; right. exists rv, flt. repeat split; auto.
+    destruct (enter o (ct g)) as [[c' p'] flt] eqn:He. inversion Hs; subst.
+    eapply S_lock; eauto.
+  - destruct (throws g) eqn:Ht.
+    + inversion Hs; subst. eapply S_call_throw; auto.
+    + destruct (apply o (ct g)) as [[c' rv] flt] eqn:Ha. inversion Hs; subst. eapply S_call_ok; eauto.
+  - destruct (throws g) eqn:Ht.
+    + inversion Hs; subst. eapply S_ful_throw; eauto.
+    + destruct (set_value q v (heap (ct g))) as [h1|] eqn:Hv.
+      * destruct (ful_goto v (S done) c0 _ k r) as [[c' p'] flt] eqn:Hg. inversion Hs; subst.
+        eapply S_ful_ok; eauto.
+      * inversion Hs; subst. eapply S_ful_bad; eauto.
+  - inversion Hs; subst. eapply S_unlock; auto.
 Qed.
 
-(* the history replayed through the sequential body `apply`, checking every logged return value *)
-Fixpoint replay (es : list (nat * op * Z)) (c : cont) : option cont :=
+(* the history replayed through the sequential bodies `apply`: a section ended by a throwing copy
+   has no effect, a normal one has the effect and the return value of `apply` *)
+Fixpoint replay (es : list (nat * op * outc)) (c : cont) : option cont :=
   match es with
   | [] => Some c
-  | (_, o, rv) :: r =>
+  | (_, o, ORet rv) :: r =>
     let '(c', rv', flt) := apply o c in
     if (rv =? rv') && negb flt then replay r c' else None
+  | (_, _, OExn) :: r => replay r c
+  | (_, _, OFault) :: _ => None
   end.
 Lemma replay_app a : forall b c, replay (a ++ b) c = match replay a c with Some c' => replay b c' | None => None end.
 Proof.
-  induction a as [|[[t o] rv] r IH]; intros b c; cbn; [reflexivity|].
+  induction a as [|[[t o] out] r IH]; intros b c; cbn; [reflexivity|]. destruct out; [|reflexivity|apply IH].
   destruct (apply o c) as [[c' rv'] flt]. destruct ((rv =? rv') && negb flt); [apply IH|reflexivity].
 Qed.
+Lemma replay_ret hs c0 t o c' rv : replay hs cont0 = Some c0 -> apply o c0 = (c', rv, false) ->
+  replay (hs ++ [(t, o, ORet rv)]) cont0 = Some c'.
+Proof. intros H Ha. rewrite replay_app, H. cbn. rewrite Ha, Z.eqb_refl. reflexivity. Qed.
+Lemma replay_exn hs c0 t o : replay hs cont0 = Some c0 -> replay (hs ++ [(t, o, OExn)]) cont0 = Some c0.
+Proof. intros H. rewrite replay_app, H. reflexivity. Qed.
 
-Record Inv (g : glob) (ls : list loc) : Prop := {
-  I_c : CInv (ct g);
-  I_nf : faulted g = false;
+(* ---------- the invariant ---------- *)
+(* always *)
+Record Base (g : glob) (ls : list loc) : Prop := {
   (* mutual exclusion: the threads inside a critical section are exactly the owner of promiseLock *)
-  I_owner : forall u, is_unlock (pcof ls u) = true -> mtx g = Some u;
-  I_held : forall a, mtx g = Some a -> is_unlock (pcof ls a) = true;
-  I_flt : forall u rv flt, pcof ls u = P_unlock rv flt -> flt = false;
+  B_owner : forall u, holds (pcof ls u) = true -> mtx g = Some u;
+  B_held : forall a, mtx g = Some a -> holds (pcof ls a) = true;
   (* every future a client holds refers to an existing promise *)
-  I_slots : forall u l i p, nth_error ls u = Some l -> nth_error (slots l) i = Some (Some p) ->
+  B_slots : forall u l i p, nth_error ls u = Some l -> nth_error (slots l) i = Some (Some p) ->
             (p < length (heap (ct g)))%nat;
-  (* the container is the result of the critical sections executed one after the other *)
-  I_hist : replay (hist g) cont0 = Some (ct g);
-  (* every value a promise holds was passed by a caller, for that key or to fulfillAllPromises *)
-  I_prov : forall q k key v, nth_error (heap (ct g)) q = Some (Cell k key (SetV v)) ->
-           exists t rv, (exists mv, In (t, SetValue mv k key v, rv) (hist g)) \/ In (t, FulfillAll v, rv) (hist g)
+  (* fulfillAllPromises does not touch the pending maps before its final clear() *)
+  B_fpend : forall u v k key q r d c0, pcof ls u = P_ful v k key q r d c0 -> pend (ct g) true = pend c0 true
 }.
+(* as long as no fulfillAllPromises has been torn by a throwing copy *)
+Record Good (g : glob) (ls : list loc) : Prop := {
+  G_nf : faulted g = false;
+  G_flt : forall u, pcof ls u <> P_unlock OFault;
+  (* outside fulfillAllPromises: the container invariant, and the container is the sequential
+     composition of the completed critical sections *)
+  G_cinv : (forall u, is_ful (pcof ls u) = false) -> CInv (ct g) /\ replay (hist g) cont0 = Some (ct g);
+  (* inside: the container at the lock step c0 was fine, and running the rest of the loops
+     sequentially from here gives exactly apply (FulfillAll v) c0 *)
+  G_ful : forall u v k key q r d c0, pcof ls u = P_ful v k key q r d c0 ->
+          CInv c0 /\ replay (hist g) cont0 = Some c0 /\ (d = 0%nat -> ct g = c0) /\
+          (exists cf, apply (FulfillAll v) c0 = (cf, 0, false) /\ finish v k ((key, q) :: r) (ct g) = Some cf) /\
+          In (u, FulfillAll v) (began g);
+  G_call : forall u o, pcof ls u = P_call o -> In (u, o) (began g);
+  (* every value a promise holds was passed by a caller, for that key or to fulfillAllPromises *)
+  G_prov : forall q k key v, nth_error (heap (ct g)) q = Some (Cell k key (SetV v)) ->
+           exists t, (exists mv, In (t, SetValue mv k key v) (began g)) \/ In (t, FulfillAll v) (began g)
+}.
+Definition Inv (g : glob) (ls : list loc) : Prop := Base g ls /\ (torn g = false -> Good g ls).
 
-Lemma Inv_init ns progs : Inv (gl (init ns progs)) (thr (init ns progs)).
+Lemma Inv_init ns pl progs : Inv (gl (init ns pl progs)) (thr (init ns pl progs)).
 Proof.
   assert (P : forall u, pcof (map (fun p => Loc p Idle (repeat None ns)) progs) u = Idle).
   { intros u. unfold pcof. rewrite nth_error_map. destruct (nth_error progs u); reflexivity. }
-  unfold init; cbn. constructor; cbn; intros; rewrite ?P in *; try discriminate; auto.
-  - apply CInv_init.
+  unfold init; cbn. split; [|intros _]; constructor; cbn; intros; rewrite ?P in *; try discriminate; auto.
   - exfalso. rewrite nth_error_map in H. destruct (nth_error progs u); [|discriminate]. inversion H; subst.
     cbn in H0. apply nth_error_In in H0. apply repeat_spec in H0. discriminate.
+  - split; [apply CInv_init|reflexivity].
   - destruct q; discriminate.
-Qed.
-
-Lemma drop_length q h : length (drop q h) = length h.
-Proof. destruct (drop_spec q h) as [[k [key [_ [_ [E _]]]]]|[_ E]]; [exact E|rewrite E; reflexivity]. Qed.
-Lemma get_length c k key sl c' rv flt : apply (GetFuture k key sl) c = (c', rv, flt) ->
-  length (heap c') = S (length (heap c)).
-Proof.
-  cbn [apply]. intros H; inversion H; subst. cbn [heap].
-  destruct (afind key (pend c k)); cbn [drop_opt]; rewrite ?drop_length, app_length; cbn; lia.
-Qed.
-
-Lemma Inv_step : forall g ls t c l g' l' es,
-  Inv g ls -> nth_error ls t = Some l -> tstep t c g l = Some (g', l', es) -> Inv g' (upd ls t l').
-Proof.
-  intros g ls t c l g' l' es HI Hl Hs.
-  pose proof (pcof_at _ _ _ Hl) as Hp.
-  destruct HI as [HC HNF HO HH HF HSL HR HPV].
-  assert (Hslots_same : forall g0, (length (heap (ct g)) <= length (heap (ct g0)))%nat -> slots l' = slots l ->
-    forall u l0 i p, nth_error (upd ls t l') u = Some l0 -> nth_error (slots l0) i = Some (Some p) ->
-      (p < length (heap (ct g0)))%nat).
-  { intros g0 Hle Hsame u l0 i p Hu Hi. destruct (nth_upd _ _ _ _ _ Hu) as [[-> [-> _]]|[_ Hu']].
-    - rewrite Hsame in Hi. specialize (HSL _ _ _ _ Hl Hi). lia.
-    - specialize (HSL _ _ _ _ Hu' Hi). lia. }
-  destruct (tstep_inv _ _ _ _ _ _ _ Hs) as [[o [r [Ha [Hpr [-> [Hlk [-> ->]]]]]]]|[[o [r [Ha [Hpr [-> [Hlk [-> ->]]]]]]]|
-    [[o [c' [rv [flt [Ha [Hm [Hap [-> [-> ->]]]]]]]]]|[rv [flt [Ha [-> [-> ->]]]]]]]].
-  - (* invoke of a locking method *)
-    constructor; auto.
-    + intros u; rewrite (pcof_upd _ _ _ _ _ Hl); cbn [at_]. destruct (Nat.eqb_spec u t); [discriminate|apply HO].
-    + intros a Hma. rewrite (pcof_upd _ _ _ _ _ Hl); cbn [at_]. destruct (Nat.eqb_spec a t) as [->|]; [|apply HH; exact Hma].
-      specialize (HH _ Hma). rewrite Hp, Ha in HH. discriminate.
-    + intros u rv flt; rewrite (pcof_upd _ _ _ _ _ Hl); cbn [at_]. destruct (Nat.eqb_spec u t); [discriminate|apply HF].
-    + apply (Hslots_same g); auto.
-  - (* a client-side observation *)
-    constructor; auto.
-    + intros u; rewrite (pcof_upd _ _ _ _ _ Hl); cbn [at_]. destruct (Nat.eqb_spec u t); [discriminate|apply HO].
-    + intros a Hma. rewrite (pcof_upd _ _ _ _ _ Hl); cbn [at_]. destruct (Nat.eqb_spec a t) as [->|]; [|apply HH; exact Hma].
-      specialize (HH _ Hma). rewrite Hp, Ha in HH. discriminate.
-    + intros u rv flt; rewrite (pcof_upd _ _ _ _ _ Hl); cbn [at_]. destruct (Nat.eqb_spec u t); [discriminate|apply HF].
-    + apply (Hslots_same g); auto.
-  - (* lock + body *)
-    destruct (apply_CInv _ _ _ _ _ HC Hap) as [HC' ->].
-    pose proof (hle_length _ _ (apply_hle _ _ _ _ _ Hap)) as Hlen.
-    constructor; cbn [ct mtx faulted hist].
-    + exact HC'.
-    + rewrite HNF. reflexivity.
-    + intros u; rewrite (pcof_upd _ _ _ _ _ Hl); cbn [at_]. destruct (Nat.eqb_spec u t) as [->|]; [reflexivity|].
-      intros Hu. specialize (HO _ Hu). congruence.
-    + intros a Hma. inversion Hma; subst. rewrite (pcof_upd _ _ _ _ _ Hl), Nat.eqb_refl. reflexivity.
-    + intros u rv0 flt0; rewrite (pcof_upd _ _ _ _ _ Hl); cbn [at_]. destruct (Nat.eqb_spec u t); [|apply HF].
-      intros E; inversion E; reflexivity.
-    + intros u l0 i p Hu Hi. destruct (nth_upd _ _ _ _ _ Hu) as [[-> [-> _]]|[_ Hu']].
-      * cbn [slots] in Hi. unfold new_slots in Hi. destruct o; try (specialize (HSL _ _ _ _ Hl Hi); cbn [ct]; lia).
-        rewrite (get_length _ _ _ _ _ _ _ Hap). cbn [ct].
-        destruct (nth_upd _ _ _ _ _ Hi) as [[_ [E _]]|[_ Hi']]; [inversion E; lia|].
-        specialize (HSL _ _ _ _ Hl Hi'). lia.
-      * specialize (HSL _ _ _ _ Hu' Hi). cbn [ct]. lia.
-    + rewrite replay_app, HR. cbn [replay]. rewrite Hap, Z.eqb_refl. reflexivity.
-    + intros q k key v Hq.
-      destruct (apply_prov _ _ _ _ _ _ _ _ _ HC Hap Hq) as [Hold|[_ [[mv ->]| ->]]].
-      * destruct (HPV _ _ _ _ Hold) as [t0 [rv0 [[mv Hin]|Hin]]]; exists t0, rv0; [left; exists mv|right]; apply in_or_app; auto.
-      * exists t, rv. left. exists mv. apply in_or_app. right. left. reflexivity.
-      * exists t, rv. right. apply in_or_app. right. left. reflexivity.
-  - (* unlock + return *)
-    pose proof (HO t) as HOt. rewrite Hp, Ha in HOt. specialize (HOt eq_refl).
-    constructor; cbn [ct mtx faulted hist]; auto.
-    + intros u; rewrite (pcof_upd _ _ _ _ _ Hl); cbn [at_]. destruct (Nat.eqb_spec u t) as [->|Hne]; [discriminate|].
-      intros Hu. specialize (HO _ Hu). congruence.
-    + intros a Hma. discriminate.
-    + intros u rv0 flt0; rewrite (pcof_upd _ _ _ _ _ Hl); cbn [at_]. destruct (Nat.eqb_spec u t); [discriminate|apply HF].
-    + apply (Hslots_same (Glob (ct g) None (faulted g) (hist g))); auto.
-Qed.
-
-(* ---------- reachable states ---------- *)
-Definition R (ns : nat) (progs : list (list op)) (s : sysD) : Prop := reachable glob loc tstep (init ns progs) s.
-
-Lemma R_inv ns progs s : R ns progs s -> Inv (gl s) (thr s).
-Proof. intros H. eapply reachable_inv; [apply Inv_step|apply Inv_init|exact H]. Qed.
-Lemma R_step ns progs s tc : R ns progs s -> R ns progs (stepD s tc).
-Proof. apply reachable_step. Qed.
-
-(* ---------- do_never_twice ---------- *)
-Lemma never_twice ns progs s : R ns progs s -> faulted (gl s) = false /\ CInv (ct (gl s)).
-Proof. intros HR. pose proof (R_inv _ _ _ HR) as HI. split; [apply (I_nf _ _ HI)|apply (I_c _ _ HI)]. Qed.
-
-Definition fault_ev : ev := E K_FAULT 0 1.
-Lemma no_fault_event ns progs s t c l g' l' es :
-  R ns progs s -> nth_error (thr s) t = Some l -> tstep t c (gl s) l = Some (g', l', es) -> ~ In fault_ev es.
-Proof.
-  intros HR Hl Hs Hin. pose proof (R_inv _ _ _ HR) as HI.
-  destruct (tstep_inv _ _ _ _ _ _ _ Hs) as [[o [r [Ha [Hpr [-> [Hlk [-> ->]]]]]]]|[[o [r [Ha [Hpr [-> [Hlk [-> ->]]]]]]]|
-    [[o [c' [rv [flt [Ha [Hm [Hap [-> [-> ->]]]]]]]]]|[rv [flt [Ha [-> [-> ->]]]]]]]].
-  - cbn in Hin. destruct Hin as [E|[]]. discriminate.
-  - cbn in Hin. destruct Hin as [E|[E|[]]]; discriminate.
-  - cbn in Hin. destruct Hin as [E|[]]. discriminate.
-  - pose proof (I_flt _ _ HI t rv flt) as Hf. rewrite (pcof_at _ _ _ Hl) in Hf. specialize (Hf Ha). subst flt.
-    cbn in Hin. destruct Hin as [E|[E|[]]]; discriminate.
-Qed.
-
-(* ---------- do_stable: a satisfied (or broken) promise never changes again ---------- *)
-Lemma step_hle (s : sysD) tc : hle (heap (ct (gl s))) (heap (ct (gl (stepD s tc)))).
-Proof.
-  unfold step, sys_step. destruct tc as [t c].
-  destruct (nth_error (thr s) t) as [l|] eqn:Hl; [|apply hle_refl].
-  destruct (tstep t c (gl s) l) as [[[g' l'] es]|] eqn:Hs; [|apply hle_refl]. cbn [fst gl].
-  destruct (tstep_inv _ _ _ _ _ _ _ Hs) as [[o [r [Ha [Hpr [-> _]]]]]|[[o [r [Ha [Hpr [-> _]]]]]|
-    [[o [c' [rv [flt [Ha [Hm [Hap [-> _]]]]]]]]|[rv [flt [Ha [-> _]]]]]]]; cbn [ct]; try apply hle_refl.
-  eapply apply_hle; eauto.
-Qed.
-Lemma run_hle sched : forall s : sysD, hle (heap (ct (gl s))) (heap (ct (gl (runD s sched)))).
-Proof.
-  apply (run_rel glob loc tstep (fun a b => hle (heap (ct (gl a))) (heap (ct (gl b))))).
-  - intros; apply hle_refl.
-  - intros a b c0; apply hle_trans.
-  - apply step_hle.
-Qed.
-Lemma stable (s s' : sysD) q k key st :
-  reachable glob loc tstep s s' -> nth_error (heap (ct (gl s))) q = Some (Cell k key st) -> st <> Unset ->
-  nth_error (heap (ct (gl s'))) q = Some (Cell k key st).
-Proof.
-  intros [sc ->] Hq Hne. destruct (run_hle sc s _ _ _ _ Hq) as [st' [E F]]. rewrite (F Hne) in E. exact E.
-Qed.
-(* a client keeps seeing the same thing in a future once it was ready *)
-Lemma stable_get (s s' : sysD) p : reachable glob loc tstep s s' ->
-  fut_ready (heap (ct (gl s))) (Some p) = 1 ->
-  fut_ready (heap (ct (gl s'))) (Some p) = 1 /\
-  fut_get (heap (ct (gl s'))) (Some p) = fut_get (heap (ct (gl s))) (Some p).
-Proof.
-  intros Hr H1. cbn [fut_get fut_ready] in *.
-  destruct (nth_error (heap (ct (gl s))) p) as [[k key st]|] eqn:E; [|discriminate].
-  destruct st; [discriminate| |]; rewrite (stable s s' _ _ _ _ Hr E); try discriminate; auto.
-Qed.
-
-(* ---------- the value a future gets ---------- *)
-Lemma set_wins ns progs s t c l g' l' es mv k key v q :
-  R ns progs s -> nth_error (thr s) t = Some l -> at_ l = P_lock (SetValue mv k key v) ->
-  tstep t c (gl s) l = Some (g', l', es) -> afind key (pend (ct (gl s)) k) = Some q ->
-  nth_error (heap (ct (gl s))) q = Some (Cell k key Unset) /\
-  nth_error (heap (ct g')) q = Some (Cell k key (SetV v)) /\
-  (forall q', q' <> q -> nth_error (heap (ct g')) q' = nth_error (heap (ct (gl s))) q') /\
-  at_ l' = P_unlock 0 false.
-Proof.
-  intros HR Hl Ha Hs Hf. pose proof (I_c _ _ (R_inv _ _ _ HR)) as HC.
-  destruct (apply_set_pending _ mv _ _ v _ HC Hf) as [c' [Hap [H1 [H2 H3]]]].
-  destruct (tstep_inv _ _ _ _ _ _ _ Hs) as [[o [r [Ha' _]]]|[[o [r [Ha' _]]]|
-    [[o [c'' [rv [flt [Ha' [Hm [Hap' [-> [-> ->]]]]]]]]]|[rv [flt [Ha' _]]]]]]; try congruence.
-  rewrite Ha in Ha'. inversion Ha'; subst o. rewrite Hap in Hap'. inversion Hap'; subst. cbn [ct at_]. auto.
-Qed.
-Lemma set_noop ns progs s t c l g' l' es mv k key v :
-  R ns progs s -> nth_error (thr s) t = Some l -> at_ l = P_lock (SetValue mv k key v) ->
-  tstep t c (gl s) l = Some (g', l', es) -> ahas key (pend (ct (gl s)) k) = false ->
-  ct g' = ct (gl s) /\ at_ l' = P_unlock 0 false.
-Proof.
-  intros HR Hl Ha Hs Hf.
-  assert (Hn : afind key (pend (ct (gl s)) k) = None) by (unfold ahas in Hf; destruct (afind key (pend (ct (gl s)) k)); [discriminate|reflexivity]).
-  destruct (tstep_inv _ _ _ _ _ _ _ Hs) as [[o [r [Ha' _]]]|[[o [r [Ha' _]]]|
-    [[o [c'' [rv [flt [Ha' [Hm [Hap' [-> [-> ->]]]]]]]]]|[rv [flt [Ha' _]]]]]]; try congruence.
-  rewrite Ha in Ha'. inversion Ha'; subst o. rewrite (apply_set_noop _ mv _ _ v Hn) in Hap'. inversion Hap'; subst. cbn [ct at_]. auto.
-Qed.
-Lemma fulfill_all ns progs s t c l g' l' es v :
-  R ns progs s -> nth_error (thr s) t = Some l -> at_ l = P_lock (FulfillAll v) ->
-  tstep t c (gl s) l = Some (g', l', es) ->
-  length (heap (ct g')) = length (heap (ct (gl s))) /\ (forall k, pend (ct g') k = []) /\
-  (forall q k key st, nth_error (heap (ct (gl s))) q = Some (Cell k key st) ->
-     nth_error (heap (ct g')) q = Some (Cell k key (settle v st))).
-Proof.
-  intros HR Hl Ha Hs. pose proof (I_c _ _ (R_inv _ _ _ HR)) as HC.
-  destruct (apply_fulfill _ v HC) as [c' [Hap H]].
-  destruct (tstep_inv _ _ _ _ _ _ _ Hs) as [[o [r [Ha' _]]]|[[o [r [Ha' _]]]|
-    [[o [c'' [rv [flt [Ha' [Hm [Hap' [-> [-> ->]]]]]]]]]|[rv [flt [Ha' _]]]]]]; try congruence.
-  rewrite Ha in Ha'. inversion Ha'; subst o. rewrite Hap in Hap'. inversion Hap'; subst. cbn [ct]. exact H.
-Qed.
-
-(* ---------- destruction: do_never_hangs, do_fulfilled_once ---------- *)
-Definition requested_once (h : heap_t) (q : nat) (k : bool) (key : Z) : Prop :=
-  forall q' st', nth_error h q' = Some (Cell k key st') -> q' = q.
-
-Lemma destroyed ns progs s : R ns progs s ->
-  exists h', destroy (ct (gl s)) = Some h' /\ length h' = length (heap (ct (gl s))) /\
-    (forall q k key st, nth_error (heap (ct (gl s))) q = Some (Cell k key st) ->
-       nth_error h' q = Some (Cell k key (settle 0 st))).
-Proof. intros HR. apply destroy_spec. apply (I_c _ _ (R_inv _ _ _ HR)). Qed.
-
-Lemma never_hangs ns progs s h' : R ns progs s -> destroy (ct (gl s)) = Some h' ->
-  (forall q x, nth_error h' q = Some x -> cst x <> Unset) /\
-  (forall u l i p, nth_error (thr s) u = Some l -> nth_error (slots l) i = Some (Some p) ->
-     fut_ready h' (Some p) = 1).
-Proof.
-  intros HR Hd. destruct (destroyed _ _ _ HR) as [h'' [Hd' [Hlen Hcell]]]. rewrite Hd in Hd'. inversion Hd'; subst h''.
-  assert (Hno : forall q x, nth_error h' q = Some x -> cst x <> Unset).
-  { intros q x Hq. destruct (nth_error (heap (ct (gl s))) q) as [[k key st]|] eqn:E.
-    - rewrite (Hcell _ _ _ _ E) in Hq. inversion Hq; subst. cbn. destruct st; discriminate.
-    - apply nth_error_None in E. assert (q < length h')%nat by (apply nth_error_Some; congruence). lia. }
-  split; [exact Hno|]. intros u l i p Hu Hi.
-  pose proof (I_slots _ _ (R_inv _ _ _ HR) _ _ _ _ Hu Hi) as Hp.
-  cbn [fut_ready]. destruct (nth_error h' p) as [[k key st]|] eqn:E.
-  - specialize (Hno _ _ E). cbn in Hno. destruct st; congruence.
-  - apply nth_error_None in E. lia.
-Qed.
-
-(* a key requested once: its future ends with a value - the one it already had, else X{} = 0 *)
-Lemma fulfilled_once ns progs s h' q k key st :
-  R ns progs s -> destroy (ct (gl s)) = Some h' ->
-  nth_error (heap (ct (gl s))) q = Some (Cell k key st) -> requested_once (heap (ct (gl s))) q k key ->
-  st <> Broken /\ exists v, nth_error h' q = Some (Cell k key (SetV v)) /\ (st = SetV v \/ (st = Unset /\ v = 0)).
-Proof.
-  intros HR Hd Hq Honce. destruct (destroyed _ _ _ HR) as [h'' [Hd' [Hlen Hcell]]]. rewrite Hd in Hd'. inversion Hd'; subst h''.
-  assert (Hnb : st <> Broken).
-  { intros ->. destruct (C_broken _ (I_c _ _ (R_inv _ _ _ HR)) _ _ _ Hq) as [q' [st' [Hlt Hq']]].
-    specialize (Honce _ _ Hq'). lia. }
-  split; [exact Hnb|]. specialize (Hcell _ _ _ _ Hq). destruct st; cbn [settle] in Hcell.
-  - exists 0. auto.
-  - exists v. auto.
-  - congruence.
-Qed.
-(* the converse reading of C_broken: a promise is only ever broken by a later request of the same key *)
-Lemma broken_only_by_rerequest ns progs s q k key :
-  R ns progs s -> nth_error (heap (ct (gl s))) q = Some (Cell k key Broken) ->
-  exists q' st, (q < q')%nat /\ nth_error (heap (ct (gl s))) q' = Some (Cell k key st).
-Proof. intros HR. apply (C_broken _ (I_c _ _ (R_inv _ _ _ HR))). Qed.
-
-(* ---------- do_queries: the life cycle under concurrent callers ---------- *)
-(* the critical section of any method o moves every key along the sequential life-cycle
-   specification abs_step, and the value it will return is the one the specification gives *)
-Lemma queries ns progs s t c l g' l' es o :
-  R ns progs s -> nth_error (thr s) t = Some l -> at_ l = P_lock o ->
-  tstep t c (gl s) l = Some (g', l', es) ->
-  (forall k key, abs (ct g') k key = abs_step o k key (abs (ct (gl s)) k key)) /\
-  at_ l' = P_unlock (abs_ret o (ct (gl s))) false.
-Proof.
-  intros HR Hl Ha Hs. pose proof (I_c _ _ (R_inv _ _ _ HR)) as HC.
-  destruct (tstep_inv _ _ _ _ _ _ _ Hs) as [[o' [r [Ha' _]]]|[[o' [r [Ha' _]]]|
-    [[o' [c' [rv [flt [Ha' [Hm [Hap [-> [-> ->]]]]]]]]]|[rv [flt [Ha' _]]]]]]; try congruence.
-  rewrite Ha in Ha'. inversion Ha'; subst o'. cbn [ct at_].
-  destruct (apply_CInv _ _ _ _ _ HC Hap) as [_ ->].
-  split.
-  - intros k key. apply (apply_abs _ _ _ _ _ k key HC Hap).
-  - destruct (apply_abs _ _ _ _ _ false 0 HC Hap) as [_ ->]. reflexivity.
-Qed.
-(* steps that are not a critical section leave every life cycle alone (in fact: the whole container) *)
-Lemma ct_changes_only_in_cs t c g l g' l' es :
-  tstep t c g l = Some (g', l', es) -> is_lock (at_ l) = false -> ct g' = ct g.
-Proof.
-  intros Hs Hn.
-  destruct (tstep_inv _ _ _ _ _ _ _ Hs) as [[o [r [Ha [_ [-> _]]]]]|[[o [r [Ha [_ [-> _]]]]]|
-    [[o [c' [rv [flt [Ha _]]]]]|[rv [flt [Ha [-> _]]]]]]]; try reflexivity.
-  rewrite Ha in Hn. discriminate.
-Qed.
-(* the value computed in the critical section is the value the method returns *)
-Lemma ret_value t c g l g' l' es rv flt :
-  tstep t c g l = Some (g', l', es) -> at_ l = P_unlock rv flt ->
-  In (E K_RET 0 rv) es /\ at_ l' = Idle /\ ct g' = ct g /\ mtx g' = None.
-Proof.
-  intros Hs Ha.
-  destruct (tstep_inv _ _ _ _ _ _ _ Hs) as [[o [r [Ha' _]]]|[[o [r [Ha' _]]]|
-    [[o [c' [rv' [flt' [Ha' _]]]]]|[rv' [flt' [Ha' [-> [-> ->]]]]]]]]; try congruence.
-  rewrite Ha in Ha'. inversion Ha'; subst. cbn. repeat split; auto.
-  right. apply in_or_app. right. left. reflexivity.
-Qed.
-(* Pending and Completed at the same time only for a key that was requested twice *)
-Lemma both_only_rerequested ns progs s k key : R ns progs s -> abs (ct (gl s)) k key = (true, true) ->
-  exists q q' st st', q <> q' /\ nth_error (heap (ct (gl s))) q = Some (Cell k key st) /\
-                      nth_error (heap (ct (gl s))) q' = Some (Cell k key st').
-Proof.
-  intros HR Hab. pose proof (I_c _ _ (R_inv _ _ _ HR)) as HC. unfold abs in Hab.
-  assert (H1 : ahas key (pend (ct (gl s)) k) = true) by congruence.
-  assert (H2 : ahas key (used (ct (gl s)) k) = true) by congruence.
-  apply ahas_true in H1. apply ahas_true in H2. destruct H1 as [q H1], H2 as [q' H2].
-  pose proof (C_pend _ HC _ _ _ H1) as E1. destruct (C_used _ HC _ _ _ H2) as [v E2].
-  exists q, q', Unset, (SetV v). repeat split; auto. intros ->. congruence.
-Qed.
-
-(* ---------- do_linearizable / do_atomic_sections ---------- *)
-Lemma linearizable ns progs s : R ns progs s -> replay (hist (gl s)) cont0 = Some (ct (gl s)).
-Proof. intros HR. apply (I_hist _ _ (R_inv _ _ _ HR)). Qed.
-
-(* the linearization point of a method is its lock step: it lies between the invoke and the
-   return of that call, and is the only step of the call that touches the history *)
-Lemma lin_point t c g l g' l' es : tstep t c g l = Some (g', l', es) ->
-  match at_ l with
-  | P_lock o => exists rv flt, hist g' = hist g ++ [(t, o, rv)] /\ at_ l' = P_unlock rv flt /\
-                               mtx g = None /\ mtx g' = Some t
-  | _ => hist g' = hist g
-  end.
-Proof.
-  intros Hs.
-  destruct (tstep_inv _ _ _ _ _ _ _ Hs) as [[o [r [Ha [_ [-> _]]]]]|[[o [r [Ha [_ [-> _]]]]]|
-    [[o [c' [rv [flt [Ha [Hm [_ [-> [-> _]]]]]]]]]|[rv [flt [Ha [-> _]]]]]]]; rewrite Ha; try reflexivity.
-  exists rv, flt. cbn. auto.
-Qed.
-
-Lemma mutual_exclusion ns progs s u u' :
-  R ns progs s -> is_unlock (pcof (thr s) u) = true -> is_unlock (pcof (thr s) u') = true -> u = u'.
-Proof.
-  intros HR H1 H2. pose proof (R_inv _ _ _ HR) as HI.
-  pose proof (I_owner _ _ HI _ H1). pose proof (I_owner _ _ HI _ H2). congruence.
-Qed.
-Lemma in_section_owns ns progs s u : R ns progs s ->
-  (is_unlock (pcof (thr s) u) = true <-> mtx (gl s) = Some u).
-Proof.
-  intros HR. pose proof (R_inv _ _ _ HR) as HI. split; [apply (I_owner _ _ HI)|apply (I_held _ _ HI)].
-Qed.
-
-(* ---------- liveness ---------- *)
-Lemma holder_enabled ns progs s a c : R ns progs s -> mtx (gl s) = Some a -> enabledD s a c.
-Proof.
-  intros HR Hm. pose proof (R_inv _ _ _ HR) as HI.
-  pose proof (I_held _ _ HI a Hm) as Hh. unfold pcof in Hh.
-  destruct (nth_error (thr s) a) as [l|] eqn:Hl; [|discriminate].
-  destruct l as [pr p sl]. cbn in Hh. destruct p; try discriminate.
-  eexists _, _. split; [exact Hl|]. unfold tstep. cbn [at_]. reflexivity.
-Qed.
-
-(* a method can be disabled only while it waits for promiseLock, and then the owner can move *)
-Lemma blocks_only_on_mutex ns progs s t c l :
-  R ns progs s -> nth_error (thr s) t = Some l -> fin l = false -> tstep t c (gl s) l = None ->
-  exists o a, at_ l = P_lock o /\ mtx (gl s) = Some a /\ a <> t /\ enabledD s a 0.
-Proof.
-  intros HR Hl Hf Hs. destruct l as [pr p sl]. unfold tstep in Hs. cbn [at_ prog slots] in *. destruct p.
-  - destruct pr as [|o r]; [discriminate|]. destruct o; discriminate.
-  - destruct (mtx (gl s)) as [a|] eqn:Hm.
-    + exists o, a. repeat split; auto.
-      * intros ->. pose proof (I_held _ _ (R_inv _ _ _ HR) t Hm) as Hh. rewrite (pcof_at _ _ _ Hl) in Hh. discriminate.
-      * eapply holder_enabled; eauto.
-    + destruct (apply o (ct (gl s))) as [[c' rv] flt]. discriminate.
-  - discriminate.
-Qed.
-
-(* no deadlock, no hang: when nothing can move, every program has run to completion *)
-Lemma quiescent_all_fin ns progs s : R ns progs s -> quiescentD s -> all_fin glob loc fin s = true.
-Proof.
-  intros HR HQ. unfold all_fin. apply forallb_forall. intros l Hin.
-  apply In_nth_error in Hin. destruct Hin as [t Hl].
-  destruct (fin l) eqn:Hf; [reflexivity|exfalso].
-  destruct (tstep t 0 (gl s) l) as [r|] eqn:Hs.
-  - apply (HQ t 0%nat); [lia|]. exists l, r. auto.
-  - destruct (blocks_only_on_mutex _ _ _ _ _ _ HR Hl Hf Hs) as [o [a [_ [_ [_ He]]]]].
-    apply (HQ a 0%nat); [lia|exact He].
-Qed.
-
-(* bounded work: every step (whatever the choice) decreases the measure: each call takes exactly three steps *)
-Definition wpc (p : pc) : nat := match p with Idle => 0 | P_lock _ => 2 | P_unlock _ _ => 1 end.
-Definition wloc (l : loc) : nat := (3 * length (prog l) + wpc (at_ l))%nat.
-Definition mu (s : sysD) : nat := list_sum (map wloc (thr s)).
-Definition any_choice (c : nat) : bool := true.
-
-Lemma mu_dec s t c : Inv (gl s) (thr s) -> any_choice c = true -> enabledD s t c -> (mu (stepD s (t, c)) < mu s)%nat.
-Proof.
-  intros HI _ [l [r [Hl Hs]]]. destruct r as [[g' l'] es].
-  unfold step, sys_step. rewrite Hl, Hs. cbn [fst]. unfold mu. cbn [gl thr].
-  apply (sum_step_dec wloc wloc (thr s) t l l' Hl); [intros; lia|].
-  destruct (tstep_inv _ _ _ _ _ _ _ Hs) as [[o [r [Ha [Hpr [_ [_ [-> _]]]]]]]|[[o [r [Ha [Hpr [_ [_ [-> _]]]]]]]|
-    [[o [c' [rv [flt [Ha [_ [_ [_ [-> _]]]]]]]]]|[rv [flt [Ha [_ [-> _]]]]]]]]; unfold wloc; rewrite ?Ha, ?Hpr; cbn; lia.
-Qed.
-Lemma bounded_work ns progs s sc : R ns progs s -> (moves glob loc tstep s sc <= mu s)%nat.
-Proof.
-  intros HR. eapply (moves_le_mu glob loc tstep mu Inv Inv_step any_choice).
-  - intros s0 t c. apply mu_dec.
-  - apply (R_inv _ _ _ HR).
-  - unfold sched_ok. apply forallb_forall. reflexivity.
-Qed.
-
-(* the value of a satisfied promise is one a caller passed: to setDelayedValue for that very key, or to fulfillAllPromises *)
-Lemma provenance ns progs s q k key v : R ns progs s ->
-  nth_error (heap (ct (gl s))) q = Some (Cell k key (SetV v)) ->
-  exists t rv, (exists mv, In (t, SetValue mv k key v, rv) (hist (gl s))) \/ In (t, FulfillAll v, rv) (hist (gl s)).
-Proof. intros HR. apply (I_prov _ _ (R_inv _ _ _ HR)). Qed.
-
-(* every future a client holds refers to a promise that exists: observations never read outside the heap *)
-Lemma slots_valid ns progs s u l i p : R ns progs s ->
-  nth_error (thr s) u = Some l -> nth_error (slots l) i = Some (Some p) ->
-  exists k key st, nth_error (heap (ct (gl s))) p = Some (Cell k key st).
-Proof.
-  intros HR Hu Hi. pose proof (I_slots _ _ (R_inv _ _ _ HR) _ _ _ _ Hu Hi) as Hp.
-  destruct (nth_error (heap (ct (gl s))) p) as [[k key st]|] eqn:E; [eauto|].
-  apply nth_error_None in E. lia.
 Qed.
